@@ -36,6 +36,8 @@ pub struct Spec {
     pub descr: String,
     /// the source layer is a tilemap layer whose single tile holds the source pixels
     pub tilemap_top: bool,
+    /// 0 = RGBA sprite; 1 = grayscale sprite (tuples have r=g=b); 2 = indexed sprite (tuples come from a palette)
+    pub fmt: u8,
 }
 
 fn pack(r: u8, g: u8, b: u8, a: u8) -> u32 {
@@ -52,7 +54,18 @@ fn to_bytes(px: &[u32]) -> Vec<u8> {
 
 /// Render through the public API: bottom layer Normal 255/255 (reproduces any RGBA verbatim over
 /// the empty canvas), top layer carries the mode and both opacities.
+fn encode_px(spec: &Spec, px: &[u32], pal: &std::collections::HashMap<u32, u8>) -> Vec<u8> {
+    match spec.fmt {
+        1 => px.iter().flat_map(|p| [*p as u8, (*p >> 24) as u8]).collect(),
+        2 => px.iter().map(|p| pal[p]).collect(),
+        _ => to_bytes(px),
+    }
+}
+
 pub fn render(spec: &Spec, mode: u16) -> Result<Vec<u32>, Failure> {
+    if spec.fmt != 0 {
+        return render_other_format(spec, mode);
+    }
     let mut s = Sprite::empty(spec.w, spec.h, Fmt::Rgba);
     // flag bits other than VISIBLE have no documented effect on RGBA compositing; vary them by content hash
     let fl = |k: u64| -> u16 { [0u16, 0, 2, LF_BACKGROUND, 0x7E, 4 | LF_BACKGROUND, 0x10, 0x40][((spec.back.len() as u64 + spec.lop as u64 * 7 + spec.cop as u64 * 13 + spec.mode as u64 + k * 3) % 8) as usize] };
@@ -72,6 +85,37 @@ pub fn render(spec: &Spec, mode: u16) -> Result<Vec<u32>, Failure> {
     let mut plan = Plan::plain();
     plan.compress = 0;
     plan.zlevel = 1;
+    let enc = encode(&s, &plan);
+    let f = AsepriteFile::read(&enc.bytes[..]).map_err(|e| Failure::new("load-error", format!("probe sprite failed to load: {}", e)))?;
+    let img = f.frame(0).image();
+    Ok(img.as_raw().chunks_exact(4).map(|c| pack(c[0], c[1], c[2], c[3])).collect())
+}
+
+/// Grayscale / indexed probe: the same RGBA tuples, stored as (v, a) pairs or as indices into a palette that
+/// holds exactly the distinct tuples (at most 255 of them; index 255 is the unused transparent index).
+fn render_other_format(spec: &Spec, mode: u16) -> Result<Vec<u32>, Failure> {
+    let fmt = if spec.fmt == 1 { Fmt::Gray } else { Fmt::Indexed };
+    let mut s = Sprite::empty(spec.w, spec.h, fmt);
+    let mut pal: std::collections::HashMap<u32, u8> = std::collections::HashMap::new();
+    if spec.fmt == 2 {
+        let mut entries = vec![];
+        for p in spec.back.iter().chain(spec.src.iter()) {
+            if !pal.contains_key(p) {
+                pal.insert(*p, entries.len() as u8);
+                let b = p.to_le_bytes();
+                entries.push(PalEntry { rgba: b, name: None });
+            }
+        }
+        assert!(entries.len() <= 255);
+        s.palette = Some(NewPalette { first: 0, entries });
+        s.transparent = 255;
+    }
+    s.layers.push(Layer { flags: LF_VISIBLE, kind: LayerKind::Image, level: 0, blend: 0, opacity: 255, name: "backdrop".into(), user_data: None });
+    s.layers.push(Layer { flags: LF_VISIBLE, kind: LayerKind::Image, level: 0, blend: mode, opacity: spec.lop, name: "source".into(), user_data: None });
+    s.frames[0].cels.push(Cel { layer: 0, x: 0, y: 0, opacity: 255, content: CelContent::Image { w: spec.w, h: spec.h, pixels: encode_px(spec, &spec.back, &pal) }, user_data: None });
+    s.frames[0].cels.push(Cel { layer: 1, x: 0, y: 0, opacity: spec.cop, content: CelContent::Image { w: spec.w, h: spec.h, pixels: encode_px(spec, &spec.src, &pal) }, user_data: None });
+    let mut plan = Plan::plain();
+    plan.compress = 0;
     let enc = encode(&s, &plan);
     let f = AsepriteFile::read(&enc.bytes[..]).map_err(|e| Failure::new("load-error", format!("probe sprite failed to load: {}", e)))?;
     let img = f.frame(0).image();
@@ -218,7 +262,7 @@ pub fn spec_channel(mode: u16, ba: u8, sa: u8, lop: u8, cop: u8) -> Spec {
             src.push(pack(y as u8, x as u8, y as u8, sa));
         }
     }
-    Spec { family: "channel-exhaustive", mode, lop, cop, w: 256, h: 256, back, src, descr: format!("all 65536 (backdrop channel, source channel) pairs in each channel, Ba={} Sa={}", ba, sa), tilemap_top: false }
+    Spec { family: "channel-exhaustive", mode, lop, cop, w: 256, h: 256, back, src, descr: format!("all 65536 (backdrop channel, source channel) pairs in each channel, Ba={} Sa={}", ba, sa), tilemap_top: false, fmt: 0 }
 }
 
 /// family 2: colour grids for HSL modes; block selects which 65536-slice of the grid^6 space
@@ -240,7 +284,7 @@ pub fn spec_hsl(mode: u16, vals: &[u8], block: u64, ba: u8, sa: u8, lop: u8, cop
     let n = back.len();
     back[n - 1] = back[0];
     src[n - 1] = src[0];
-    Spec { family: "hsl-grid", mode, lop, cop, w: 256, h: 256, back, src, descr: format!("colour grid {}^3 x {}^3 block {} Ba={} Sa={}", n, n, block, ba, sa), tilemap_top: false }
+    Spec { family: "hsl-grid", mode, lop, cop, w: 256, h: 256, back, src, descr: format!("colour grid {}^3 x {}^3 block {} Ba={} Sa={}", n, n, block, ba, sa), tilemap_top: false, fmt: 0 }
 }
 
 pub fn spec_random(mode: u16, seed: u64, biased: bool) -> Spec {
@@ -281,10 +325,27 @@ pub fn spec_random(mode: u16, seed: u64, biased: bool) -> Spec {
         back.push(pack(b[0], b[1], b[2], b[3]));
         src.push(pack(s[0], s[1], s[2], s[3]));
     }
+    // every sixth random sprite is a grayscale sprite, every sixth an indexed one (same arithmetic, other
+    // pixel decode path): grayscale tuples get r=g=b, indexed tuples are drawn from 120 distinct colours
+    let fmt = if tilemap_top { 0 } else { [0u8, 0, 0, 0, 1, 2][((seed >> 11) % 6) as usize] };
+    if fmt == 1 {
+        for p in back.iter_mut().chain(src.iter_mut()) {
+            let b = p.to_le_bytes();
+            *p = pack(b[0], b[0], b[0], b[3]);
+        }
+    } else if fmt == 2 {
+        let pool: Vec<u32> = back.iter().take(60).chain(src.iter().take(60)).copied().collect();
+        for (k, p) in back.iter_mut().enumerate() {
+            *p = pool[(k * 7 + (k >> 5)) % 60];
+        }
+        for (k, p) in src.iter_mut().enumerate() {
+            *p = pool[60 + (k * 11 + (k >> 4)) % 60];
+        }
+    }
     let n = back.len();
     back[n - 1] = back[0];
     src[n - 1] = src[0];
-    Spec { family: if tilemap_top { "random-tilemap-source" } else if biased { "boundary-biased-random" } else { "uniform-random" }, mode, lop, cop, w: 128, h: 128, back, src, descr: format!("seed {}{}", seed, if tilemap_top { ", source layer is a tilemap" } else { "" }), tilemap_top }
+    Spec { family: if fmt == 1 { "random-grayscale-sprite" } else if fmt == 2 { "random-indexed-sprite" } else if tilemap_top { "random-tilemap-source" } else if biased { "boundary-biased-random" } else { "uniform-random" }, mode, lop, cop, w: 128, h: 128, back, src, descr: format!("seed {}{}", seed, if tilemap_top { ", source layer is a tilemap" } else { "" }), tilemap_top, fmt }
 }
 
 #[derive(Clone, Debug)]
